@@ -1,6 +1,7 @@
 CHECK = {
     "suites": [suite("rounds", "c10", 1500, 150000, stdin=True)],
-    "lean_sources": ["ClusterVerif/Model/Pin.lean", "ClusterVerif/Model/C04.lean", "ClusterVerif/Model/C10.lean", "ClusterVerif/Spec/C10.lean",
+    "gen": [{"pkg": "extract_c10", "out": "lean/ClusterVerif/Gen/C10.lean"}],
+    "lean_sources": ["ClusterVerif/Model/C10Source.lean", "ClusterVerif/Gen/C10.lean", "ClusterVerif/Model/Pin.lean", "ClusterVerif/Model/C04.lean", "ClusterVerif/Model/C10.lean", "ClusterVerif/Spec/C10.lean",
                      "ClusterVerif/Model/C03.lean", "ClusterVerif/Spec/C03.lean", "ClusterVerif/Lemmas/C10.lean"],
     "rule": "one case = one round over a shared pinset of 1-6 pins and 1-8 members: a ping alert for one member delivered to the real alertsHandler of every other "
             "(trusted) member in turn, or one member running PeerRemove, or every member running StateSync; members carry follower / disable-repinning flags, "
@@ -18,5 +19,5 @@ META = {
             "(alertsHandler / vacatePeer / StateSync over C04's pin and unpin) is tied to the code by running real Cluster instances over a shared real dsstate "
             "and comparing final pinset and per-member LogPin/LogUnpin calls; the Lean property clauses are evaluated on the implementation's outputs.",
     "note": "Trusted: Lean kernel, hand-written model/spec, harness (shared fake consensus, alert delivery barrier), verif_export.go; hash collision-freeness is a hypothesis.",
-    "technique": "Lean 4 theorems (xor-distance uniqueness, step preservation) + differential correspondence per round on real Cluster instances",
+    "technique": "Lean 4 theorems (xor-distance uniqueness, step preservation, memoryless handler loop) + regenerated source text of the anchored functions checked against the transcribed snapshot (rfl) + differential correspondence per round on real Cluster instances",
 }
